@@ -52,7 +52,12 @@ class StmtMixin:
         out.pc = list(sts[0].pc[:L]) + [z3.Or(*conds), z3.AtMost(*conds, 1)]
         for b, s_ in zip(conds, sts):
             for f in s_.pc[L:]:
-                out.pc.append(z3.Implies(b, f))
+                if f.get_id() in s_.defs:
+                    out.pc.append(f); out.defs.add(f.get_id())
+                else:
+                    out.pc.append(z3.Implies(b, f))
+        for s_ in sts:
+            out.defs |= s_.defs
 
         def ite(terms):
             if all(t.eq(terms[0]) for t in terms[1:]):
